@@ -419,9 +419,10 @@ func (c *Ctx) geRun() []*geVerdict {
 	// the sentences of the parser families
 	for _, f := range gxFamilies(false) {
 		switch f.name {
-		case "operator-pairs", "equal-level-chains", "prefix-postfix-call-index-against-binary", "calls-index-grouping", "nested-calls":
+		case "operator-pairs", "equal-level-chains", "prefix-postfix-call-index-against-binary", "calls-index-grouping", "nested-calls", "spacing-comments-case":
+			// (the last one: white-space and comment tokens anywhere, keywords in any letter case - the value is that of the bare token string)
 			for _, it := range f.items {
-				if strings.Contains(it, "LIKE") {
+				if strings.Contains(strings.ToUpper(it), "LIKE") {
 					continue
 				}
 				items = append(items, struct{ fam, expr string }{f.name, it})
